@@ -175,7 +175,11 @@ def _gene_names(rng, n, cname):
     while i < n:
         run = int(rng.integers(1, 8))
         r = rng.random()
-        if r < 0.45:
+        if r < 0.04:
+            nm = "ATX7qZ"[k % 6]  # a one-character gene name
+        elif r < 0.07:
+            nm = [" lead", "trail ", "a.b", "x(1)", "p|q", "G=1"][k % 6]  # unusual characters ("N/A" would be read back from a .cnr as missing: reader ground, C08)
+        elif r < 0.45:
             nm = f"G{cname}_{k}"
         elif r < 0.55:
             nm = f"G{cname}_{max(0, k - 2)}"  # a name seen before (duplicate, non-adjacent)
